@@ -109,4 +109,70 @@ HRRoundTripContract(e) ==
                      Fl("serialisation_differs_only_in_grouping", e.toks1 = e.toks2) \o
                      (IF w = -2 THEN <<>> ELSE Fl("same_meaning", w = -1)),
                      IF w = -2 THEN <<"same_meaning">> ELSE <<>>, w)
+\* ------------------------------------------------------------------ C17
+(***************************************************************************)
+(* A history of API calls on a solver driven through the textual SMT-LIB    *)
+(* interface.  The STRICT REFERENCE SOLVER is the script semantics of       *)
+(* SmtLibSyntax.tla (declarations scoped by assertion level; redeclaration, *)
+(* use before declaration or after the declaring level was popped, pop      *)
+(* below level 0 are Illegal).                                              *)
+(*   sxs        every command the wrapper sent, in order                    *)
+(*   calls[k]   [api (command record c, x, n), ncmds (commands sent during  *)
+(*              the call), res ("true" | "false" | "none" | "error"),       *)
+(*              checksat (the solver's replies to the check-sat commands of *)
+(*              the call), model (assignment returned by get_model),        *)
+(*              value / asked (get_value: returned constant / symbol)]      *)
+(*   terms[x]   the formula with id x;  m0 = the solver's model             *)
+(***************************************************************************)
+RECURSIVE CallStart(_, _)
+CallStart(calls, k) == IF k = 1 THEN 1 ELSE CallStart(calls, k - 1) + calls[k - 1].ncmds
+
+SolverStreamContract(e) ==
+    LET n == Len(e.calls)
+        \* the strict machine after the commands of calls 1..k (the prologue commands come first)
+        StAfter(k) == RunScript(SubSeq(e.sxs, 1, e.prologue + CallStart(e.calls, k) - 1 + e.calls[k].ncmds), InitScript)
+        final == RunScript(e.sxs, InitScript)
+        \* abstract assertion stack of the API history
+        apicmds == [k \in 1..n |-> e.calls[k].api]
+        Want(k) == LET la == LiveAsserts(StateAfter(apicmds, k)) IN [j \in 1..Len(la) |-> e.terms[la[j].x]]
+        LiveOK(k) == LET got == LiveAsserted(StAfter(k))
+                         want == Want(k)
+                         \* a one-shot query leaves its level (with the query asserted) pending until the next call
+                         \* that clears it; get_value / get_model do not clear it
+                         extra == \E j \in 1..k : e.calls[j].api.c \in {"is_sat", "is_valid", "is_unsat"}
+                                                  /\ \A i \in (j + 1)..k : e.calls[i].api.c \in {"get_value", "get_model"}
+                     IN  IF extra THEN Len(got) = Len(want) + 1 /\ \A j \in 1..Len(want) : SameMeaning(got[j], want[j]) = -1
+                         ELSE Len(got) = Len(want) /\ \A j \in 1..Len(want) : SameMeaning(got[j], want[j]) = -1
+        badlive == {k \in 1..n : e.calls[k].res # "error" /\ ~LiveOK(k)}
+        failed == {k \in 1..n : e.calls[k].res = "error"}
+        \* verdict = the solver's reply to the check-sat sent during that call
+        VerdictOK(k) ==
+            LET cl == e.calls[k] IN
+            CASE cl.api.c = "solve" -> Len(cl.checksat) = 1 /\ cl.res = (IF cl.checksat[1] = "sat" THEN "true" ELSE "false")
+              [] cl.api.c = "is_sat" -> Len(cl.checksat) = 1 /\ cl.res = (IF cl.checksat[1] = "sat" THEN "true" ELSE "false")
+              [] cl.api.c \in {"is_valid", "is_unsat"} -> Len(cl.checksat) = 1 /\ cl.res = (IF cl.checksat[1] = "sat" THEN "false" ELSE "true")
+              [] OTHER -> Len(cl.checksat) = 0
+        badverdict == {k \in 1..n : e.calls[k].res # "error" /\ ~VerdictOK(k)}
+        M0 == ModelOf(e.m0)
+        \* get_model after sat: every free symbol of the live assertions gets the value the solver reports, so it satisfies them
+        ModelOK(k) ==
+            LET cl == e.calls[k]
+                live == Want(k)
+                need == UNION {FreeNames(live[j]) : j \in 1..Len(live)}
+                got == ModelOf(cl.model)
+            IN  /\ \A nm \in need : nm \in DOMAIN got /\ got[nm] = M0[nm]
+                /\ \A nm \in DOMAIN got : got[nm] = M0[nm]
+        badmodel == {k \in 1..n : e.calls[k].api.c = "get_model" /\ e.calls[k].res = "none" /\ ~ModelOK(k)}
+        badvalue == {k \in 1..n : e.calls[k].api.c = "get_value" /\ e.calls[k].res = "none"
+                                  /\ Eval(e.calls[k].value, EmptyMap, QDefault) # M0[e.calls[k].asked]}
+    IN  Verdict(Fl("legal_command_stream", final.illegal = <<>>) \o
+                (IF final.illegal # <<>> THEN <<final.illegal[1]>> ELSE <<>>) \o
+                Fl("api_call_succeeds_on_legal_history", failed = {}) \o
+                Fl("solver_holds_exactly_the_live_assertions", final.illegal # <<>> \/ badlive = {}) \o
+                Fl("verdict_is_the_solvers_reply", badverdict = {}) \o
+                Fl("model_assigns_every_live_symbol_the_solvers_value", badmodel = {}) \o
+                Fl("value_is_the_solvers_reply", badvalue = {}), <<>>,
+                IF failed # {} THEN CHOOSE k \in failed : TRUE
+                ELSE IF badlive # {} THEN CHOOSE k \in badlive : TRUE
+                ELSE IF badmodel # {} THEN CHOOSE k \in badmodel : TRUE ELSE -1)
 =============================================================================
